@@ -1,4 +1,5 @@
 import TieU.ElemProofs
+import TieU.NullProofs
 import DsProofs.Properties.C14
 /-!
 # TIEU — theorems about the element-wise utility tables AS THEY ARE WRITTEN NOW (`GenU/Elem.lean`, regenerated from /repo by `harness/translate_util.py`)
@@ -59,7 +60,17 @@ theorem TIEU_C14_auc (uniq : List Int → List Int) (ytr yte pred : List Int) (a
   rw [TIEU_auc_elem uniq ytr yte M (by rw [hu]; exact hM)]
   exact hsum.1
 
+/-- the translated `SklearnModelRocAuc.elementwise_null_score` (the constant prediction of the LEAST FREQUENT validation class, scored one class at a time: a point of that
+class earns `1/p` as a true positive of its own class and `1/n` as a true negative of every other class, halved and averaged over the classes; every other point earns 0 —
+the code divides by the class counts of the VALIDATION labels) is the model's `aucNullElem` wherever that is defined (at least two classes among the validation labels);
+`uniq` = `np.unique`, whose contract (sorted distinct values) is the hypothesis -/
+theorem TIEU_auc_null (uniq : List Int → List Int) (ytr yte : List Int) (v : List ℚ)
+    (hu : uniq yte = Ds.Util.unique yte) (h : aucNullElem yte = some v) :
+    (GenU.auc_elementwise_null_score uniq ytr yte : List ℚ) = v :=
+  auc_null_eq uniq ytr yte v hu h
+
 /-! ### non-vacuity -/
+example : (GenU.auc_elementwise_null_score (fun _ => [0, 1]) [] [1, 0, 1, 1] : List ℚ) = [0, 1 / 2, 0, 0] := by decide +kernel
 example : (GenU.acc_elementwise_score (fun _ => [0, 1, 2]) [2, 0, 1, 0] [1, 1, 2] : List (List ℚ)) = [[0, 0, 0], [1, 1, 0], [0, 0, 1]] := by
   decide +kernel
 example : (GenU.acc_elementwise_null_score (fun _ => [0, 1, 2]) [2, 0, 1, 0] [1, 1, 2] : List ℚ) = [0, 0, 0] := by decide +kernel
